@@ -135,9 +135,11 @@ def build_summary(u, psum):
             ty, callfmt, specfmt = kinds[a1]
             params.append("a%d: %s" % (i, ty))
             cargs.append(callfmt % a)
-            parts.append(q(segs[i]))
-            parts.append("(" + specfmt % ("a%d" % i) + ")")
-        parts.append(q(segs[-1]))
+            if segs[i]:
+                parts.append(q(segs[i]))      # an empty literal segment contributes nothing
+            parts.append(specfmt % ("a%d" % i))
+        if segs[-1]:
+            parts.append(q(segs[-1]))
         lit = ftext[ftext.index('"'):ftext.index('"', ftext.index('"') + 1) + 1]
         u.rule("E6", "ProxySummary::to_key_string: format! value assumed to be the literal's segments interleaved with the Display text of its %d arguments (generated from the tree)" % len(args))
         with u.impl_(psum, "ProxySummary"):
@@ -148,6 +150,11 @@ def build_summary(u, psum):
                       contract="""
         ensures r@ == summary_key(*self),  // @C11.to_key_string.names_user_client_destination_process_cmdline_status
 """)
+        # vstd's From specification hook: the conversion is specified by the function summary_entry (spec.rs)
+        u.raw("""impl vstd::std_specs::convert::FromSpecImpl<ProxySummary> for ProxyConnectionSummary {
+    open spec fn obeys_from_spec() -> bool { false }
+    open spec fn from_spec(v: ProxySummary) -> ProxyConnectionSummary { arbitrary() }
+}""")
         with u.impl_(psum, "<ProxyConnectionSummary as From<ProxySummary>>"):
             u.take_fn(psum, "<ProxyConnectionSummary as From<ProxySummary>>::from", make_pub=False,
                       pre_body="broadcast use axiom_to_string_string, axiom_to_string_cow;",
@@ -184,9 +191,29 @@ use vstd::std_specs::hash::*;"""
             if pat != "AgentStatusAction::%s{summary,response}" % variant:
                 raise Undecided("%s: arm %s binds other names than summary/response" % (FN, variant))
             lo, hi = arm_block(asw, seen[variant], FN + " " + variant)
+            kl = [l for l in it["lets"] if lo <= l["span"][0] and l["span"][1] <= hi and l["init"] is not None
+                  and re.sub(r"\s+", "", asw.s(l["init"][0], l["init"][1])) == "summary.to_key_string()"]
+            hints = []
+            if len(kl) == 1:   # proof hint only (its loss cannot make anything pass): the exec key is THE String with that text
+                kn = asw.s(kl[0]["pat"][0], kl[0]["pat"][1]).strip()
+                hints = [(asw.s(kl[0]["span"][0], kl[0]["span"][1]), None, "after",
+                          "proof { assert(%s@ == str_key(summary_key(summary))@); assert(%s == str_key(summary_key(summary))); }" % (kn, kn))]
+            sends = [c for c in it["calls"] if c["kind"] == "method" and c["callee"] == "send" and lo <= c["span"][0] and c["span"][1] <= hi]
+            if len(sends) == 1:   # proof hint placed before the statement that replies: struct / map extensionality steps
+                hints.append((asw.s(sends[0]["span"][0], sends[0]["span"][1]), None, "before", """proof {
+    let k = str_key(summary_key(summary));
+    let m1 = %s@;
+    if m0.contains_key(k) {
+        assert(m1[k] == bump(m0[k]));
+        assert(m1 == m0.insert(k, bump(m0[k])));
+    } else {
+        assert(m1.dom() == m0.dom().insert(k));
+        assert(m1 == m0.insert(k, m1[k]));
+    }
+}""" % local))
             u.slice_fn(asw, FN, name, lo, hi,
-                       "%s: &mut HashMap<String, ProxyConnectionSummary>, summary: ProxySummary, response: oneshot::Sender<()>" % local,
-                       pre_body="broadcast use vstd::std_specs::hash::group_hash_axioms, group_str_key, axiom_string_ext;\nlet ghost m0 = %s@;\nlet ghost s0 = summary;\n" % local,
+                       "%s: &mut HashMap<String, ProxyConnectionSummary>, summary: ProxySummary, response: oneshot::Sender<()>" % local, hints=hints,
+                       pre_body="broadcast use vstd::std_specs::hash::group_hash_axioms, group_str_key, axiom_string_ext, axiom_same_key_updated;\nlet ghost m0 = %s@;\n" % local,
                        what="(actor arm AgentStatusAction::%s)" % variant,
                        contract="""
         requires
